@@ -235,7 +235,19 @@ def rule_r4(ctx):
         else:
             ctx.fail(r, f, "default state accepted", f.line, "an unknown decoder state does not fail with NNG_EPROTO")
     else:
-        ctx.fail(r, f, "state dispatch incomplete", f.line, "chunk_ingest_char lost cases or its default")
+        # the same dispatch written as an if / else-if chain over cl_state
+        states, cut = set(), {}
+        for bid, k, atom, val in G.edge_facts(f):
+            if atom.get("k") == "bin" and atom["op"] in ("==", "!=") and G.field_is(atom["lhs"], "cl_state") and atom["rhs"].get("k") == "enum":
+                if (atom["op"] == "==") == bool(val):
+                    states.add(atom["rhs"]["n"])
+                    cut[bid] = k
+        epr = {(x.b, x.i) for x in f.sites() if (x.node.get("k") == "ret" and x.node.get("e") is not None and "NNG_EPROTO" in show(f.expand(x.node["e"])))
+               or (x.node.get("k") == "asg" and "NNG_EPROTO" in show(f.expand(x.node["rhs"])))}
+        if len(states) >= 6 and epr and G.must_pass(f, (f.entry, 0), epr, cut=cut) is None:
+            r.ob(f, "%d states handled by an if-chain, anything else fails with NNG_EPROTO" % len(states))
+        else:
+            ctx.fail(r, f, "state dispatch incomplete", f.line, "chunk_ingest_char lost cases or its default")
     g = prog.need("chunk_ingest_len", "supplemental/http/http_chunk.c")
     mul = [t for t in g.assigns() if t.node.get("op") == "*=" and G.field_is(t.node["lhs"], "cl_size")]
     okm = G.cmp_edges(g, lambda l: G.field_is(l, "cl_size"), {">": 1, "<=": 0})
